@@ -81,7 +81,7 @@ def project(mol) -> dict:
             ok = ang < 1e-3
         uid = u if ok else -1
         f = {c: _val_to_spec(c, feats[c][i]) for c in cols} if len(feats) == n else {c: -1 for c in cols}
-        rows.append({"uid": uid, "f": f})
+        rows.append({"uid": uid, "f": f if cols else []})      # a table without feature columns: f is the empty function <<>>
     if cols and len(feats) != n:
         # feature rows out of step with positions: make it visible
         rows = [{"uid": -1, "f": r["f"]} for r in rows]
